@@ -9,7 +9,7 @@ PROP_FILE = "Props/C09.v"
 THEOREMS = ["C09_deferred_is_trace_spec", "C09_defer_request_only_sets_flag", "C09_checkpoint_honours_deferred",
             "C09_grace_sleep_then_pause", "C09_pausing_has_a_cause", "C09_pausing_with_checkpoint_pauses"]
 impl_batch = cc.impl_batch
-COQ_IMPORTS = ec.COQ_IMPORTS + "\nFrom BV Require Import Proofs.RE_Ctl Proofs.RE_Hold Proofs.RE_CtlExamples."
+coq_term = cc.coq_term
 RULE = ec.RULE + ("; plus C09 extras: checkpoint spacing 0..5, a deferred pause at every `_run` step, plans without a further "
                   "checkpoint, a second call after the first one returned with the deferred request pending, `pause(defer=True)` messages")
 
@@ -27,25 +27,7 @@ def oracle(case, obs):
 
 
 def finding(case, obs):
-    if obs.get("errors"):
-        return None
-    return _analyse(case, obs)[1]
-
-
-def coq_term(case, obs):
-    """the model reproduces the observation, and a violation classified C09-a here is a run in the Coq class
-    finding_C09_a (Proofs/RE_Hold.v), evaluated on the model's own trace of this schedule"""
-    if obs.get("errors"):
-        return None
-    from harness.drivers import engine_encode
-    try:
-        e = engine_encode.Enc(case, obs).encode()
-    except engine_encode.Unsupported:
-        return None
-    t = "check %s %s %s %s %s %s %s" % (e["tapes"], e["ledger"], e["paus"], e["stag"], e["rec"], e["evs"], e["obs"])
-    if finding(case, obs) == "a":
-        t = "andb (%s) (finding_C09_a (itrace %s %s %s %s %s %s))" % (t, e["tapes"], e["ledger"], e["paus"], e["stag"], e["rec"], e["evs"])
-    return t
+    return None       # C09-a is repaired (fixes/C09-a.diff): no recorded finding class
 
 
 def _analyse(case, obs):
@@ -56,7 +38,6 @@ def _analyse(case, obs):
 
 def _analyse0(case, obs):
     tl = cc.timeline(obs)
-    cleared = False         # a clear_checkpoint was executed earlier in this call (the engine stays non-resumable)
     sp = cc.Spec()
     fresh = cc.fresh_flags(tl, obs["tapes"])
     cur = None              # (index, canon msg, responded?) of the message being processed
@@ -82,21 +63,15 @@ def _analyse0(case, obs):
             if by_ckpt and not by_request:
                 took_effect = True
                 other_req = False
-        if k == "main" and e[1] == "call" and sp.state == "idle":
-            cleared = False
-        if k == "resp" and cur is not None and not cur[2] and cur[1]["cmd"] == "clear_checkpoint" and not cc.is_exn(e[1]):
-            cleared = True
         if k == "state" and e[1] == "pausing" and e[2] != "paused" and took_effect and not other_req:
             nxt = next((x for x in tl[i + 1:] if x[0] in ("req", "msg", "task", "out")), None)
             if nxt is not None and nxt[0] == "req" and nxt[1] and nxt[2] in _TERMINAL:
                 other_req = True       # an abort/stop/halt request landed while the engine was pausing
         if k == "state" and e[1] == "pausing" and e[2] != "paused" and took_effect and not other_req:
-            return ("the deferred pause took effect at the checkpoint but the engine went %s instead of pausing there" % e[2],
-                    "a" if cleared else None)
+            return "the deferred pause took effect at the checkpoint but the engine went %s instead of pausing there" % e[2]
         if k == "msg":
             if took_effect and not other_req:
-                return ("message %s was executed after the deferred pause took effect at the checkpoint and before the engine was paused" % e[2]["cmd"],
-                        "a" if cleared else None)
+                return "message %s was executed after the deferred pause took effect at the checkpoint and before the engine was paused" % e[2]["cmd"]
             if must_pause_at is not None and not other_req:
                 return "a deferred pause was pending at checkpoint (timeline index %d) but the engine went on to message %s without pausing" % (must_pause_at, e[2]["cmd"])
             if expect_fresh and e[1] is not None:
